@@ -373,6 +373,9 @@ def run_replay(pid: str, path: str) -> int:
         r = subprocess.run([sys.executable, "-O", "-X", "faulthandler", "-m", "rv.cli", pid, "quick", "--replay", path],
                            cwd=VERIF, env=dict(os.environ, PYTHONPATH=VERIF, PYTHONDONTWRITEBYTECODE="1"))
         return r.returncode
+    if w.get("ambient") == "pyjelly-warnings-as-errors":
+        import warnings
+        warnings.filterwarnings("error", module=r"pyjelly(\..*)?$")
     if w.get("ambient") == "debug-logging":
         import logging
         logging.basicConfig(level=logging.DEBUG, handlers=[logging.NullHandler()], force=True)
